@@ -381,7 +381,7 @@ Proof.
     replace (N.to_nat (k - 1) - length (clogC s))%nat with (N.to_nat (k - s_committed s - 1))
       by (unfold lenN in HC; lia).
     rewrite nth_error_map, Hn. reflexivity. }
-  destruct (chain_nth H _ _ _ _ _ _ _ _ i_chainB Hl) as (w & (R & Es & _ & _ & Ha) & _).
+  destruct (chain_nth H _ _ _ _ _ _ _ _ i_chainB Hl) as (w & (R & Es & Hid & _ & Ha) & _).
   exists pe, (w_rec w). split; [reflexivity|].
   assert (Hwf : wr_wf H w).
   { apply tl_read_some in R. destruct R as [_ Hin]. eapply Forall_forall in i_wf; eauto. }
@@ -390,7 +390,9 @@ Proof.
     destruct (N.eqb_spec k 0); [lia|]. destruct (N.ltb_spec (s_inmem s) k); [lia|]. cbn [orb].
     destruct (N.leb_spec k (s_committed s)); [lia|].
     rewrite (pb_read_ahead_spec _ _ i_buf_ok), Hn. cbn [bind].
-    unfold read_at. cbn [cent ce_off ce_size] in R, Es. rewrite R, Es, N.eqb_refl. reflexivity.
+    unfold read_at. cbn [cent ce_off ce_size] in R, Es. rewrite R, Es, N.eqb_refl.
+    unfold check_id. cbn [bind]. rewrite Hid. replace (0 + N.of_nat (N.to_nat (k - 1)) + 1) with k by lia.
+    rewrite N.eqb_refl. reflexivity.
   - destruct Hwf as [Hw _]. rewrite Hw. cbn [cent ce_alh] in Ha. rewrite Ha. reflexivity.
 Qed.
 
